@@ -115,7 +115,15 @@ def PlumeFeature.covers (f : PlumeFeature R) (ctx : Ctx R) (q : Query R) : Excep
       pure (⟨((1 : R) - fraction) * cl.x + fraction * ch.x, ((1 : R) - fraction) * cl.y + fraction * ch.y⟩,
             ((1 : R) - fraction) * sl + fraction * sh, ((1 : R) - fraction) * el + fraction * eh,
             interpolateAngleAcrossZero rl rh fraction) : Except Err (P2 R × R × R × R))
-  let sp := surfacePoint ctx.coord.spherical q.nat
+  let sp0 := surfacePoint ctx.coord.spherical q.nat
+  -- spherical: the description of the query longitude closest to the plume centre
+  -- (upstream 'fix: plume ignored the 2 pi periodicity of longitude')
+  let sp : P2 R :=
+    if ctx.coord.spherical then
+      if sp0.x - center.x > Scalar.pi then ⟨sp0.x - (2.0 : R) * Scalar.pi, sp0.y⟩
+      else if sp0.x - center.x < -Scalar.pi then ⟨sp0.x + (2.0 : R) * Scalar.pi, sp0.y⟩
+      else sp0
+    else sp0
   let rel0 := fractionFromEllipseCenter center sma ecc rot sp
   let rel ← (if depth ≥ f.minDepth ∧ depth < d0 then do
       let a ← front f.semiMajor
